@@ -2,6 +2,7 @@ SPECIFICATION Spec
 CONSTANTS D = 2
           NPre = 4
           NE = 4
+          EMin = 1
           EMax = 3
           Dirs = {"ltr", "rel"}
           Caps = {1, 2, 3, 99}
